@@ -19,6 +19,9 @@ ALTS = ["+42.5|Acetyl", "Acetyl|+42.5", "Obs:+79.978|Phospho", "Phospho|Obs:+79.
         "+1.5|Obs:+2.5", "Glycan:Hex|+100", "+100|Glycan:Hex", "M:+14|Methyl", "Acetyl|Formula:C5", "Formula:C5|Acetyl"]
 
 
+
+RULE_EXTRA = ('one annotation object serves mass() and comp_mass() in either order; a family with alternatives inside one modification (numeric and named in either order; known finding C03_AlternativePrecedence); XLMOD rows in average mode.')
+
 def cap_multipliers(A, cap):
     for sl in ("labile", "unknown", "nterm", "cterm"):
         for m in A[sl]:
